@@ -251,11 +251,22 @@ func lintFromStdin(cmd *cobra.Command) error {
 	// Display results
 	fmt.Fprintf(outWriter, "Linting stdin input:\n\n")
 
+	// Run security scanner if --security flag is set (as for files)
+	securityFindingCount := 0
+	if lintSecurity {
+		securityFindingCount = runSecurityScan(string(content), "stdin", outWriter)
+	}
+
 	if len(result.Violations) == 0 {
 		fmt.Fprintln(outWriter, "No violations found.")
 		// Write to file if specified
 		if outputFile != "" {
-			return WriteOutput(outputBuf.Bytes(), outputFile, cmd.OutOrStdout())
+			if err := WriteOutput(outputBuf.Bytes(), outputFile, cmd.OutOrStdout()); err != nil {
+				return err
+			}
+		}
+		if securityFindingCount > 0 {
+			return fmt.Errorf("%d security finding(s) detected", securityFindingCount)
 		}
 		return nil
 	}
@@ -302,6 +313,9 @@ func lintFromStdin(cmd *cobra.Command) error {
 	if errorCount > 0 || (lintFailOnWarn && warningCount > 0) {
 		return fmt.Errorf("%d error(s) and %d warning(s) found", errorCount, warningCount)
 	}
+	if securityFindingCount > 0 {
+		return fmt.Errorf("%d security finding(s) detected", securityFindingCount)
+	}
 
 	return nil
 }
@@ -317,10 +331,21 @@ func lintInlineSQL(cmd *cobra.Command, sql string) error {
 		outWriter = &outputBuf
 	}
 
+	// Run security scanner if --security flag is set (as for files)
+	securityFindingCount := 0
+	if lintSecurity {
+		securityFindingCount = runSecurityScan(sql, "inline", outWriter)
+	}
+
 	if len(result.Violations) == 0 {
 		fmt.Fprintln(outWriter, "No violations found.")
 		if outputFile != "" {
-			return WriteOutput(outputBuf.Bytes(), outputFile, cmd.OutOrStdout())
+			if err := WriteOutput(outputBuf.Bytes(), outputFile, cmd.OutOrStdout()); err != nil {
+				return err
+			}
+		}
+		if securityFindingCount > 0 {
+			return fmt.Errorf("%d security finding(s) detected", securityFindingCount)
 		}
 		return nil
 	}
@@ -349,6 +374,9 @@ func lintInlineSQL(cmd *cobra.Command, sql string) error {
 
 	if errorCount > 0 || (lintFailOnWarn && warningCount > 0) {
 		return fmt.Errorf("%d error(s) and %d warning(s) found", errorCount, warningCount)
+	}
+	if securityFindingCount > 0 {
+		return fmt.Errorf("%d security finding(s) detected", securityFindingCount)
 	}
 
 	return nil
